@@ -82,7 +82,7 @@ def _cmp_table(where, spec, rec, strict_width, bad):
             cls = 'cell'
             for (n, k), av, evv in zip(spec['cols'], a, e):
                 if av != evv:
-                    cls = {'S': 'string', 'L': 'string', 'enum': 'enum', 'f4': 'float', 'f8': 'float'}.get(Y.base_kind(k), 'int')
+                    cls = {'S': 'string', 'L': 'string', 'enum': 'enum', 'enum2': 'enum', 'f4': 'float', 'f8': 'float'}.get(Y.base_kind(k), 'int')
                     if cls == 'string' and '{{}}' in ''.join(evv if isinstance(evv, tuple) else (evv,)):
                         cls = 'string:contains-{{}}'
                     break
@@ -211,7 +211,7 @@ def _trigger(case):
 def cells_for(kind):
     if Y.is_array(kind):
         sc = Y.scalar_cells(kind, in_array=True)
-        return [[a, b] for a in sc for b in sc]
+        return [list(c) for c in itertools.product(sc, repeat=Y.arr_len(kind))]
     return Y.scalar_cells(kind)
 
 
@@ -364,7 +364,7 @@ def run_task(task):
             first = [task['first']] if task.get('first') else []
             for rest in itertools.product(Y.KINDS, repeat=ncol - len(first)):
                 kinds = first + list(rest)
-                if 'enum' in kinds:
+                if 'enum' in kinds or 'enum2' in kinds:
                     continue   # the Table writer has no enum argument
                 cols = [['c%d' % i, k] for i, k in enumerate(kinds)]
                 for r in (0, 1, 2):
